@@ -227,6 +227,7 @@ class Flags:
         self.opt = rng.choice([[], ['-O0'], ['-O2'], ['-Os']])
         self.define = rng.choice([None, 1, 2])
         self.define_sep = rng.chance(1, 4)
+        self.undef = rng.chance(1, 4)        # `-UNAME` AFTER the -D: the later option wins, NAME falls back to the unit's default
         self.warn = rng.chance(1, 3)
         self.err = False
         self.inc_form = rng.choice(['joined', 'separate', 'iquote'])
@@ -273,6 +274,8 @@ class Flags:
         d = self.define if define_override is None else define_override
         if d is not None:
             a += ['-D', 'NAME=%d' % d] if self.define_sep else ['-DNAME=%d' % d]
+            if self.undef:
+                a += ['-UNAME'] if d % 2 else ['-U', 'NAME']
         if self.warn:
             a.append('-DWARN')
         if self.err:
@@ -657,6 +660,13 @@ def run_history(hid, rng, sccache, model_fn, port, verdict, n_ops, known_ids):
             do_compile('diagnostics style %s' % (' '.join(st) or '(default)'))
         fl.diag = []
 
+        # (1a) other stages than -c: assembly to the default name and to stdout (`-o -`, the one case with a non-empty stdout)
+        sbase = ['-S', fl.src, '-Iinc', '-Iinc2', '-O1']
+        for a_, note_ in ((sbase + ['-o', '-'], 'assembly to stdout'), (sbase, 'assembly to the default name'),
+                          (sbase + ['-o', '-'], 'assembly to stdout again'), (sbase + ['-o', 'asm.s'], 'assembly to a named file')):
+            do_compile(note_, args=a_)
+        verdict.count('assembly-stage-block')
+
         # (1b) input that is ALREADY PREPROCESSED (.i / .ii): the compiler does not preprocess it again, so neither -D nor the
         #      macro names of the dialect may touch its text; produced by a real -E run of a unit that mentions __LINE__
         psrc, pout = ('unit.cpp', 'unit.ii') if cxx else ('unit.c', 'unit.i')
@@ -750,6 +760,7 @@ def run_history(hid, rng, sccache, model_fn, port, verdict, n_ops, known_ids):
             elif op == 'define':
                 fl.define = rng.choice([None, 1, 2, 3])
                 fl.define_sep = rng.chance(1, 3)
+                fl.undef = rng.chance(1, 3)
                 do_compile('define')
             elif op == 'incpath':
                 fl.alt = not fl.alt
@@ -800,7 +811,7 @@ def run_history(hid, rng, sccache, model_fn, port, verdict, n_ops, known_ids):
             elif op == 'repeat':
                 do_compile('repeat')
             elif op == 'passthrough':
-                which = rng.choice(['E', 'S', 'two', 'rsp', 'M', 'nolink', 'rsp_bs'])
+                which = rng.choice(['E', 'S', 'S_stdout', 'S_default', 'two', 'rsp', 'M', 'nolink', 'rsp_bs'])
                 base = fl.args()
                 if which == 'E':
                     a = [x for x in base if x not in ('-c',) and not x.startswith('-o') and x not in ('out.o', 'sub/out.o', 'sub/other.o')] + ['-E']
@@ -808,6 +819,11 @@ def run_history(hid, rng, sccache, model_fn, port, verdict, n_ops, known_ids):
                 elif which == 'S':
                     a = [x if x != '-c' else '-S' for x in base]
                     a = [x for x in a if not x.endswith('.o') and x != '-o'] + ['-o', 'out.s']
+                elif which in ('S_stdout', 'S_default'):
+                    # assembly to stdout (`-o -`, the one case with a non-empty stdout) / to the default name
+                    a = [x if x != '-c' else '-S' for x in base]
+                    a = [x for x in a if not x.endswith('.o') and x != '-o' and not x.startswith('-M') and x not in ('out.d', 'tgt', 'a', 'b', 'q$t')]
+                    a += ['-o', '-'] if which == 'S_stdout' else []
                 elif which == 'two':
                     a = [x for x in base if x not in ('-o', 'out.o', 'sub/out.o', 'sub/other.o', '-oout.o')] + ['other.c']
                 elif which == 'rsp':
@@ -1006,13 +1022,71 @@ SCENARIOS = {
 }
 
 
+def _table_source(name, chunks):
+    """a C unit with one constant table; chunks = [(kind, n)], kind in random / zero / text: how well the object compresses"""
+    x = 12345
+    vals = []
+    for kind, n in chunks:
+        for i in range(n):
+            if kind == 'random':
+                x = (x * 1103515245 + 12345) & 0x7fffffff
+                vals.append((x >> 16) & 255)
+            elif kind == 'zero':
+                vals.append(0)
+            else:
+                vals.append(97 + i % 7)
+    body = ','.join(map(str, vals))
+    return ('const unsigned char %s[%d] = {%s};\nint use_%s(int i) { return %s[i]; }\n' % (name, len(vals), body, name, name)).encode()
+
+
+def scenario_large_objects(sid, sccache, port, verdict, known_ids, compiler):
+    """Objects of very different size and compressibility (below / at / above the 64 KiB and 128 KiB block sizes of the entry
+    encoding; random tables that zstd stores raw, zeros, text, mixtures): compiled, answered from the cache, answered again
+    after a server restart - each time compared byte for byte with a direct compile."""
+    root = ROOT_PREFIX + '%d-s%d' % (os.getpid(), sid)
+    shutil.rmtree(root, ignore_errors=True)
+    tree = os.path.join(root, 'w')
+    os.makedirs(tree)
+    units = [('r300k', [('random', 300000)]), ('r70k', [('random', 70000)]), ('r131k', [('random', 131073)]),
+             ('mix', [('zero', 100000), ('random', 150000), ('text', 50000)]), ('z400k', [('zero', 400000)])]
+    for i, (name, chunks) in enumerate(units):
+        write_file(tree, name + '.c', _table_source(name, chunks), i + 1)
+    srv = Server(sccache, root, port, False)
+    tag = '%s no-pp-cache' % compiler
+    verdict.count('scenario.large-objects')
+    srv.start()
+    try:
+        for name, chunks in units:
+            args = ['-c', name + '.c', '-o', name + '.o']
+            for note in ('compiled and stored', 'answered from the cache'):
+                d, w = _both(srv, sccache, compiler, args, tree)
+                _compare(verdict, tag, compiler, args, d, w, '%s, object of %d table bytes (%s)' % (note, sum(n for _, n in chunks), '+'.join(k for k, _ in chunks)),
+                         known_ids, replay={'scenario': 'large_objects', 'sid': sid, 'compiler': compiler})
+        srv.stop()
+        srv.start()
+        for name, chunks in units[:2]:
+            args = ['-c', name + '.c', '-o', name + '.o']
+            d, w = _both(srv, sccache, compiler, args, tree)
+            _compare(verdict, tag, compiler, args, d, w, 'answered from the cache after a server restart', known_ids,
+                     replay={'scenario': 'large_objects', 'sid': sid, 'compiler': compiler})
+    finally:
+        srv.stop()
+        srv.kill_leftovers()
+        shutil.rmtree(root, ignore_errors=True)
+
+
+SCENARIOS['large_objects'] = scenario_large_objects
+
+
 def scenario_plan(tier):
     """(name, kwargs) list; quick runs each scenario once, thorough for every compiler"""
     plan = [('header_saved_during_compile', dict(real_compiler='gcc', cxx=False)),
-            ('two_build_dirs', dict(compiler='gcc')), ('device_output', dict(compiler='gcc'))]
+            ('two_build_dirs', dict(compiler='gcc')), ('device_output', dict(compiler='gcc')),
+            ('large_objects', dict(compiler='gcc'))]
     if tier == 'thorough':
         plan += [('header_saved_during_compile', dict(real_compiler='clang', cxx=False)),
                  ('header_saved_during_compile', dict(real_compiler='g++', cxx=True)),
                  ('header_saved_during_compile', dict(real_compiler='clang++', cxx=True)),
-                 ('two_build_dirs', dict(compiler='clang')), ('device_output', dict(compiler='clang'))]
+                 ('two_build_dirs', dict(compiler='clang')), ('device_output', dict(compiler='clang')),
+                 ('large_objects', dict(compiler='clang'))]
     return plan
